@@ -9,7 +9,7 @@ RULE = ("recorded histories are driven through wavemem::Encoder (hook): vcd_valu
         "2/4/9-state data, also wider than necessary), real_change; one or several encoders appended in order; and the same "
         "histories as VCD files. Exhaustive: every ordered pair and triple of state kinds x widths 1..40 (meta bits in the "
         "first byte vs. extra meta byte); sizes around the 32-byte compression threshold with compressible and "
-        "incompressible payloads; signals absent from some segments. Oracle: meaning of the abstract history. "
+        "incompressible payloads; signals absent from some segments; signals quiet for 4095..70000 steps (time deltas of 12..17 bits, also across the 65535 roll-over with little/no data in the finished block). Oracle: meaning of the abstract history. "
         "Non-trivial: a signal with >= 2 changes whose kinds differ, or >= 32 bytes of data for one signal, or >= 2 segments.")
 ASSUMPTIONS = ["lz4_flex: decompress(compress(d), n) = d for n >= |d| (A-lz4); the model runs with the identity compressor, "
                "the implementation with lz4 - equal observations on both sides of the threshold exercise the assumption",
@@ -171,6 +171,14 @@ def run(res, rng, tier, model_ok, replay=None):
                 line, exp, _ = gen.vcd_case(rng, rng.choice(["st", "rd"]), sigs, steps, imp, ws="plain")
                 kl = "vcd-file"
             cases.append({"line": line, "expect": exp, "key": nontrivial(sigs, steps, nseg, line), "klass": kl})
+        for gap in ([4095, 4096, 16383, 16384, 16385, 65534, 65535, 65536, 65537, 70000] if tier == "quick" else
+                    [127, 128, 4095, 4096, 4097, 16383, 16384, 16385, 32767, 32768, 65534, 65535, 65536, 65537, 70000, 131071, 140000]):
+            sigs, steps = gen.gap_history(rng, gap)
+            table, out = gen.expected_obs(sigs, steps, False)
+            cases.append({"line": gen.enc_case(rng, sigs, steps), "expect": gen.obs_string(table, out),
+                          "key": ("gap", gap), "klass": "quiet-gap"})
+            cases.append({"line": raw_case(rng, sigs, steps), "expect": gen.obs_string(table, out),
+                          "key": ("gapraw", gap), "klass": "quiet-gap-raw"})
     vcdfam.run_both(res, cases, "c04", model_ok)
     res.samples = [c["line"][:400] for c in cases[-2:]] + [cases[0]["line"][:300]]
 
